@@ -1,4 +1,96 @@
+/-
+  C08 — the PQR file is a faithful, re-readable serialisation of the model.
+
+  Property theorems only (helper lemmas live in P2P/Proofs). The model is
+  P2P/Model/Pqr.lean; it is tied to structures.py / io.py / main.py by the
+  correspondence harness (harness/props/c08.py) on every run.
+
+  Full strength ("whatever the magnitude of numbers, insertion codes or name
+  lengths") is FALSE of the current code: the `…_witness` theorems below refute it
+  with concrete atoms, each replayed on the real code by the harness and listed in
+  known_findings.txt. What holds is the round trip under the explicit, decidable
+  predicates `Fits` (fixed columns) and `FitsWs` (whitespace layout), whose
+  complements are exactly the classes of the witnesses.
+-/
 import P2P.Model.Pqr
+import P2P.Proofs.PqrLemmas
+
 namespace P2P.Props.C08
-theorem placeholder : True := trivial
+open P2P P2P.Pqr
+
+-- `Fits`, `FitsWs` are defined next to the model (P2P/Model/Pqr.lean) because the
+-- driver exposes them and the harness checks its own domain split against them.
+
+/-- **Round trip, default layout**: the fixed-column reader recovers every field. -/
+theorem roundtrip_fixed (kc : Bool) (a : PAtom) (h : Fits a = true) :
+    slices (fmtPqr kc a) = some (fieldsOf kc a) :=
+  P2P.Proofs.Pqr.roundtrip_fixed kc a h
+
+/-- **Round trip, whitespace layout**: pdb2pqr's own token reader recovers every
+field from the re-spaced line. -/
+theorem roundtrip_ws (kc : Bool) (a : PAtom) (h : FitsWs kc a = true) :
+    fromPqrLine (wsRespace (fmtPqr kc a) ++ ['\n']) = .ok (some (fieldsOf kc a)) :=
+  P2P.Proofs.Pqr.roundtrip_ws kc a h
+
+/-- every written line has the same length, so columns never shift (needs only a
+one-character insertion code) -/
+theorem line_length (kc : Bool) (a : PAtom) (h : a.ins.length ≤ 1) : (fmtPqr kc a).length = 69 :=
+  P2P.Proofs.Pqr.fmtPqr_length kc a h
+
+/-! ### non-vacuity -/
+def base : PAtom :=
+  { type := str "ATOM", serial := 1, name := str "CA", resName := str "ALA", chain := str "A",
+    resSeq := 1, ins := [], x := ⟨false, 1000⟩, y := ⟨false, 2000⟩, z := ⟨false, 3000⟩,
+    q := some ⟨true, 1000⟩, r := some ⟨false, 15000⟩ }
+
+example : Fits base = true := by decide +kernel
+example : FitsWs true base = true := by decide +kernel
+/-- every field at the edge of its column -/
+def edge : PAtom :=
+  { type := str "HETATM", serial := 99999, name := str "HD21", resName := str "NALA", chain := str "A",
+    resSeq := -999, ins := str "B", x := ⟨true, 999999⟩, y := ⟨false, 9999999⟩, z := ⟨true, 0⟩,
+    q := some ⟨true, 999999⟩, r := some ⟨false, 999999⟩ }
+example : Fits edge = true := by decide +kernel
+example : FitsWs true { edge with ins := [], resSeq := 999, q := none, r := some ⟨false, 99999⟩ } = true := by
+  decide +kernel
+
+/-! ### full strength is false: witnesses (each one is replayed on the real code) -/
+
+theorem serial_trunc_witness :
+    slices (fmtPqr false { base with serial := 123456 }) ≠ some (fieldsOf false { base with serial := 123456 }) := by
+  decide +kernel
+theorem resseq_trunc_witness :
+    slices (fmtPqr false { base with resSeq := 12345 }) ≠ some (fieldsOf false { base with resSeq := 12345 }) := by
+  decide +kernel
+theorem resseq_neg_trunc_witness :
+    slices (fmtPqr false { base with resSeq := -1234 }) ≠ some (fieldsOf false { base with resSeq := -1234 }) := by
+  decide +kernel
+theorem coord_trunc_witness :
+    slices (fmtPqr false { base with x := ⟨false, 12345678⟩ }) ≠ some (fieldsOf false { base with x := ⟨false, 12345678⟩ }) := by
+  decide +kernel
+theorem coord_neg_trunc_witness :
+    slices (fmtPqr false { base with y := ⟨true, 1234567⟩ }) ≠ some (fieldsOf false { base with y := ⟨true, 1234567⟩ }) := by
+  decide +kernel
+theorem charge_trunc_witness :
+    slices (fmtPqr false { base with q := some ⟨true, 1005000⟩ }) ≠ some (fieldsOf false { base with q := some ⟨true, 1005000⟩ }) := by
+  decide +kernel
+theorem radius_trunc_witness :
+    slices (fmtPqr false { base with r := some ⟨false, 1002500⟩ }) ≠ some (fieldsOf false { base with r := some ⟨false, 1002500⟩ }) := by
+  decide +kernel
+theorem ws_chain_merge_witness :
+    fromPqrLine (wsRespace (fmtPqr true { base with resSeq := 1234 }) ++ ['\n']) ≠ .ok (some (fieldsOf true { base with resSeq := 1234 })) := by
+  decide +kernel
+theorem ws_icode_witness :
+    fromPqrLine (wsRespace (fmtPqr false { base with ins := str "B" }) ++ ['\n']) = .error .valueError := by
+  decide +kernel
+theorem ws_charge_merge_witness :
+    fromPqrLine (wsRespace (fmtPqr false { base with q := some ⟨true, 105000⟩ }) ++ ['\n']) = .error .valueError := by
+  decide +kernel
+theorem ws_radius_merge_witness :
+    fromPqrLine (wsRespace (fmtPqr false { base with r := some ⟨false, 102500⟩ }) ++ ['\n']) = .error .valueError := by
+  decide +kernel
+theorem ws_numeric_chain_witness :
+    fromPqrLine (wsRespace (fmtPqr true { base with chain := str "7" }) ++ ['\n']) ≠ .ok (some (fieldsOf true { base with chain := str "7" })) := by
+  decide +kernel
+
 end P2P.Props.C08
